@@ -92,19 +92,20 @@ def c11_cases(chk, quick):
     for m in ([1, 2, 3, 4] if quick else [1, 2, 3, 4, 5, 8]):
         for l in (1, 2, 3):
             cases.append(dict(m=m, l=l, seqs=s3))
-    for m in ([2, 3] if quick else [1, 2, 3, 4, 6]):
-        for l in ([1, 2] if quick else [1, 2, 3, 4]):
+    for m in ([1, 2, 3, 5, 8] if quick else [1, 2, 3, 4, 6, 8, 16]):
+        for l in ([1, 2, 3] if quick else [1, 2, 3, 4]):
             cases.append(dict(m=m, l=l, seqs=s4))
-    if not quick:
-        s5 = all_sequences(2, 5) + all_sequences(3, 5)[::3]
-        for m in (2, 3, 4):
-            for l in (1, 2, 3):
-                cases.append(dict(m=m, l=l, seqs=s5))
+    s5 = all_sequences(2, 5) + (all_sequences(3, 5) if not quick else all_sequences(3, 5)[::2])
+    s6 = all_sequences(2, 6) + ([] if quick else all_sequences(3, 6)[::5])
+    for m in ((2, 4) if quick else (2, 3, 4, 7)):
+        for l in ((1, 2, 3) if quick else (1, 2, 3, 5)):
+            cases.append(dict(m=m, l=l, seqs=s5))
+            cases.append(dict(m=m, l=l, seqs=s6))
     # random larger sequences with all their rotations and a few shuffles (n <= 60, alphabet 2..30)
-    for _ in range(6 if quick else 60):
-        n = rnd.randint(4, 60)
+    for _ in range(150 if quick else 600):
         alpha = rnd.randint(2, 30)
         maxmult = 14
+        n = rnd.randint(4, min(60, alpha * maxmult))
         seq = []
         cnt = {}
         while len(seq) < n:
